@@ -36,7 +36,10 @@ def _native_call_soon_threadsafe(self, rec, *args, **kwargs):
     self.scheduled.append((args[0], tuple(args[1:])))
 
 
-OWNER_LOOP = ext_class("loop", fields={"closed": T.bool}, is_closed=field("closed"), stable_fields=("closed",))
+# an event loop as asyncio defines it: closed or not, and -- independently -- currently running or not (a loop that
+# is open but not spinning yet, e.g. between run_until_complete and run_forever, still accepts call_soon_threadsafe)
+OWNER_LOOP = ext_class("loop", fields={"closed": T.bool, "running": T.bool}, is_closed=field("closed"), is_running=field("running"),
+                       stable_fields=("closed", "running"))
 OWNER_LOOP.methods["call_soon_threadsafe"] = ExtMethod("call_soon_threadsafe", fn=_call_soon_threadsafe,
                                                        native=_native_call_soon_threadsafe)
 
